@@ -12,7 +12,7 @@ import subprocess
 from vlib import COQ, GOENV, REPO, VERIF, build_govalid, coq_make, go_build, log, run, scratch
 
 GEN_IMPORT = ("From GV Require Import Base.Bytes Base.StrOps Base.GoFloat GoLite.Syntax GoLite.Sem "
-              "GoLite.Safety Gen.Decl Gen.Rules Gen.Template Gen.Spec Gen.Guard Gen.Harness.\n")
+              "GoLite.Safety Gen.Decl Gen.Rules Gen.Template Gen.Spec Gen.Guard Gen.Harness Gen.Names.\n")
 
 
 def hexbytes_coq(h):
@@ -220,8 +220,11 @@ class GenRun:
             lines.append("Definition kf_%d := Eval vm_compute in kf_mask tab_%d d_%d." % (i, i, i))
             # safety side conditions of the program-independent theorems (C16_no_shared_writes, C17_no_panic), on the REAL output
             lines.append("Definition safe_%d := Eval vm_compute in match p_%d with Some f => (if file_writes_global f then 1 else 0) + "
-                         "(match f_nilguard f with Some _ => 0 | None => 2 end) + (if f_tail_ok f then 0 else 4) + (if f_wrappers_ok f then 0 else 8) | None => 0 end." % (i, i))
-            lines.append("Definition res_%d := (%d%%nat, ok_%d, diff_%d, mm_%d, ms_%d, calls_%d, allocs_%d, kf_%d, gcalls_%d, safe_%d)." % (i, i, i, i, i, i, i, i, i, i, i))
+                         "(match f_nilguard f with Some _ => 0 | None => 2 end) + (if f_tail_ok f then 0 else 4) + (if f_wrappers_ok f then 0 else 8) + "
+                         "(if uses_declared_b f then 0 else 16) + (if nodup_b (declared_names f) then 0 else 32) | None => 0 end." % (i, i))
+            # hypotheses of C08_no_duplicate_declaration_flat on the declaration: 1 = flat, 2 = no Min/Max clash
+            lines.append("Definition hyp_%d := Eval vm_compute in (if flat d_%d then 1 else 0) + (if no_clash (field_names d_%d) then 2 else 0)." % (i, i, i))
+            lines.append("Definition res_%d := (%d%%nat, ok_%d, diff_%d, mm_%d, ms_%d, calls_%d, allocs_%d, kf_%d, gcalls_%d, safe_%d, hyp_%d)." % (i, i, i, i, i, i, i, i, i, i, i, i))
         n = len(self.meta)
         lines.append("Definition all_results := [%s]." % "; ".join("res_%d" % m["index"] for m in self.meta))
         lines.append("Set Printing Width 1000000. Set Printing Depth 1000000.")
@@ -252,12 +255,12 @@ def parse_results(out, n):
     txt = txt.replace("\n", " ")
     # tuples look like (0, true, (0, 0), [], [], [..], [..])
     res = {}
-    pat = re.compile(r"\((\d+), (true|false), \((\d+), (\d+)\), (\[[^\]]*\]), (\[[^\]]*\]), (\[[^\]]*\]), (\[[^\]]*\]), (\d+), (\[[^\]]*\]), (\d+)\)")
+    pat = re.compile(r"\((\d+), (true|false), \((\d+), (\d+)\), (\[[^\]]*\]), (\[[^\]]*\]), (\[[^\]]*\]), (\[[^\]]*\]), (\d+), (\[[^\]]*\]), (\d+), (\d+)\)")
     for m in pat.finditer(txt):
         res[int(m.group(1))] = {
             "cert": m.group(2) == "true", "diff": (int(m.group(3)), int(m.group(4))),
             "mm": parse_nat_list(m.group(5)), "ms": parse_nat_list(m.group(6)),
-            "calls": parse_nat_list(m.group(7)), "allocs": parse_nat_list(m.group(8)), "kf": int(m.group(9)), "gcalls": parse_nat_list(m.group(10)), "safe": int(m.group(11))}
+            "calls": parse_nat_list(m.group(7)), "allocs": parse_nat_list(m.group(8)), "kf": int(m.group(9)), "gcalls": parse_nat_list(m.group(10)), "safe": int(m.group(11)), "hyp": int(m.group(12))}
     if len(res) != n:
         raise RuntimeError("could not parse Coq results (%d of %d): %s" % (len(res), n, out[-1500:]))
     return res
